@@ -15,6 +15,7 @@ import (
 	"fmt"
 	"math/rand"
 	"os"
+	"runtime/debug"
 	"sort"
 	"strconv"
 	"strings"
@@ -102,14 +103,36 @@ func runWorker(r *evid.Run, job string) {
 	defer os.RemoveAll(scratch)
 	e := &explorer{cfg: cfg, depth: depth, shard: shard, nshards: nshards, scratch: scratch, memo: map[string]int{}, fails: map[string]*recorded{}, stop: r.Expired}
 	in := e.fresh(nil)
-	e.exploreState(in, nil, 0)
-	in.close()
+	var cur *inst // instance executing an operation (for the history of a panic)
+	e.onExec = func(x *inst) { cur = x }
+	func() {
+		defer func() {
+			if p := recover(); p != nil {
+				if s, ok := p.(string); ok && strings.HasPrefix(s, "engine:") {
+					panic(p)
+				}
+				// a panic inside the code under test: report it with the history that was running and
+				// stop this shard (locks of the interrupted transaction may still be held)
+				st := debug.Stack()
+				x := cur
+				if x == nil {
+					x = in
+				}
+				x.quiet = false
+				x.failf("panic|"+evid.PanicSite(st), "panic: %v", p)
+				e.record(x)
+				e.capped = true
+			}
+		}()
+		e.exploreState(in, nil, 0)
+		in.close()
+	}()
 	out := workerOut{Job: job, TxStates: e.txStates, OuterStates: e.outerStates, Transitions: e.transitions, Executions: e.executions,
 		Commits: e.commits, Reopens: e.reopens, FailedUpd: e.failedUpd, Rollbacks: e.rollbacks, CursorChecks: e.cursorChecks, Pruned: e.pruned, Capped: e.capped, Samples: e.samples}
 	for _, sig := range e.order {
 		rec := e.fails[sig]
 		// confirm by two plain replays of the recorded history on fresh databases
-		for i := 0; i < 2; i++ {
+		for i := 0; i < 2 && !strings.HasPrefix(sig, "C16|panic|"); i++ {
 			ok := false
 			for _, fl := range replayHistory(scratch, cfg, rec.Hist) {
 				if fl.sig == sig {
